@@ -590,6 +590,32 @@ class PInt(metaclass=_Meta):
         return (isinstance(x, int) or (isinstance(x, (SymInt, SymBool)) and not x.np))
 
 
+def _concrete_container(x):
+    """str() / repr() of a container as the code under test sees it: symbolic members are concretised (forking)"""
+    if isinstance(x, SymInt):
+        return core.eng().concretize(x.e) if not x.np else _numpy_scalar(core.eng().concretize(x.e))
+    if isinstance(x, SymBool):
+        return bool(x)
+    if isinstance(x, SStr):
+        return x.concretize()
+    if isinstance(x, K):
+        return str.__str__(x)
+    if isinstance(x, list):
+        return [_concrete_container(y) for y in x]
+    if isinstance(x, tuple):
+        return tuple(_concrete_container(y) for y in x)
+    if isinstance(x, set):
+        return set(_concrete_container(y) for y in x)
+    if isinstance(x, dict):
+        return {_concrete_container(a): _concrete_container(b) for a, b in x.items()}
+    return x
+
+
+def _numpy_scalar(v):
+    import numpy
+    return numpy.int64(v)
+
+
 class PStr(metaclass=_Meta):
     _real = str
 
@@ -606,6 +632,8 @@ class PStr(metaclass=_Meta):
             return x
         if isinstance(x, _Meta):
             return K(repr(x))
+        if isinstance(x, (list, tuple, dict, set)):
+            return K(str(_concrete_container(x)))
         return K(str(x))
 
     @staticmethod
